@@ -72,6 +72,27 @@ def u_zero_group(h, solver, layout, X, fit_intercept=False):
             h.ensure('zero-column-coef-is-zero[%d]' % j, h.eq(w[j], 0))
 
 
+def u_zero_block_constants(h, sparse):
+    """block constants of QuadraticGroup on a design with an all-zero group: finite, and exactly 0 for the zero group (the CSC
+    variant runs the power method on an all-zero block)"""
+    from checks.common import D
+    Dm = D()
+    Xc = X_of('zero_first32')
+    n, p = Xc.shape
+    gp, gi = np.array([0, 1, 2], dtype=np.int32), np.array([0, 1], dtype=np.int32)
+    df = h.datafit(Dm.QuadraticGroup, grp_ptr=gp, grp_indices=gi)
+    y = h.vec('y', n)
+    Xd = h.const(Xc)
+    if sparse:
+        Xs = h.csc(Xd)
+        L = df.get_lipschitz_sparse(Xs.data, Xs.indptr, Xs.indices, y)
+    else:
+        L = df.get_lipschitz(Xd, y)
+    h.observe('probe', 1.0)
+    h.ensure('constant-of-the-zero-group-is-0', h.eq(L[0], 0))
+    h.ensure('finite-constants', h.and_(h.is_finite(L[0]), h.is_finite(L[1])))
+
+
 def units(tier):
     us = []
     q = tier == 'quick'
@@ -111,6 +132,8 @@ def units(tier):
         for lay, X in (('rev', 'zero_last32'), ('rev', 'zero_first32')):
             us.append(Unit('C19/D/zero-group[%s,layout=%s,X=%s]' % (solver, lay, X), u_zero_group,
                            dict(solver=solver, layout=lay, X=X), wall_s=150, timeout_ms=8000, patched=solver == 'GroupProxNewton'))
+    for sp in (False, True):
+        us.append(Unit('C19/K/zero-block-constants[sparse=%s]' % sp, u_zero_block_constants, dict(sparse=sp), wall_s=90, timeout_ms=8000))
     return us
 
 
